@@ -120,6 +120,33 @@ def job(cfg):
         modes.append("r")
     chols = chol_alphabet(n, seed, thorough and not lite)
     Zh = np.zeros((2, n, n))
+    # a container the kind does not support (hand-coded cisd on unrestricted walkers ...): refusing is fine, answering is
+    # fine only if the answer is right -- "not implemented" must not quietly become "implemented for equal spin blocks"
+    if not tc.unrestricted_ok and cfg["variant"] == "" and not lite:
+        gridu = al.walker_grid(n, na, nb, seed, restricted=False, cap=3)
+        Wau, Wbu, Phiu = gridmc.lab_walkers(tc, gridu, False)
+        p = tc.params[-1]
+        trial = gridmc.trial_for(tc, len(tc.params) - 1)
+        cl, chol = chols[-1]
+        hd = gridmc.build_ham_data(n, 0.0, Zh, chol, trial, p.wave_data)
+        try:
+            fbu = eval_fb(trial, p.wave_data, hd, "u", "batched", Wau, Wbu)
+        except Exception:
+            fbu = None
+            res.guard("unsupported_container_refused", 1)
+        res.add(states=1, transitions=1, evaluations=1, traces=1)
+        if fbu is not None:
+            res.guard("unsupported_container_answered", 1)
+            O_ref = np.conj(p.ket) @ Phiu
+            good = np.abs(O_ref) > NODE_FRAC * np.abs(O_ref).max()
+            fb_ref = np.array([((np.conj(p.ket) @ Lh) @ Phiu)[good] / O_ref[good] for Lh in sec.chol_ops(chol)]).T
+            err = np.abs(fbu[good] - fb_ref).max(axis=1) / max(1.0, np.abs(fb_ref).max())
+            err = np.where(np.isfinite(fbu[good]).all(axis=1), err, np.inf)
+            bad = gridmc.first_bad(err, TOL)
+            if bad is not None:
+                res.violation("%s/u/force_bias/answers-an-unsupported-container-wrongly" % kind,
+                              dict(cfg, mode="u", entry="unsupported", label=p.label, chol=cl, point=int(np.nonzero(good)[0][bad])),
+                              dict(impl=fbu[good][bad], ref=fb_ref[bad], err=float(err[bad])))
     for mode in modes:
         grid = al.walker_grid(n, na, nb, seed, restricted=(mode == "r"), cap=cap_for(mode, lite))
         if grid["capped"]:
@@ -215,7 +242,7 @@ def run(ctx):
                 "public calc_overlap along exp(x L_g); non-trivial & distinct = distinct reference force-bias values on the dense set")
     ctx.assume("walkers with reference overlap < 1e-2 of the grid maximum excluded beforehand (property: non-vanishing overlap)")
     ctx.pmap(job, configs(ctx.tier, ctx.seed), tasks_per_child=2)
-    ctx.require_guard("grid_points_u", "grid_points_r", "logderivative_points")
+    ctx.require_guard("grid_points_u", "grid_points_r", "logderivative_points", "unsupported_container_refused")
 
 
 def replay(case):
@@ -223,9 +250,9 @@ def replay(case):
     kind, n, na, nb, seed = cfg["kind"], cfg["n"], cfg["na"], cfg["nb"], cfg["seed"]
     thorough = cfg["tier"] == "thorough"
     lite = cfg.get("lite", False)
-    if cfg.get("entry") in ("logder", "scaled"):
+    if cfg.get("entry") in ("logder", "scaled", "unsupported"):
         r = job({k: v for k, v in cfg.items() if k not in ("mode", "entry", "label", "chol", "point", "g", "scale", "n_batch")})
-        v = [x for x in r.violations if ("logderivative" in x["signature"] or "scale-invariant" in x["signature"])]
+        v = [x for x in r.violations if ("logderivative" in x["signature"] or "scale-invariant" in x["signature"] or "unsupported" in x["signature"])]
         return (len(v) > 0, {"violations": [x["detail"] for x in v][:1]})
     tc = trials.build(kind, n, na, nb, seed, cfg["variant"], full_basis=thorough and not lite and kind != "multislater")
     sec = fock.sector(n, na, nb)
